@@ -2,6 +2,7 @@ package exporter
 
 import (
 	"fmt"
+	"github.com/anz-bank/sysl/pkg/utils"
 	"strings"
 
 	proto "github.com/anz-bank/sysl/pkg/sysl"
@@ -40,7 +41,10 @@ func makeTypeExporter(logger *logrus.Logger) *TypeExporter {
 }
 
 func (t *TypeExporter) populateTypes(syslTypes map[string]*proto.Type, swaggerTypes spec.Definitions) error {
-	for typeName, dataType := range syslTypes {
+	// in name order: member schemas are registered under the bare member name,
+	// so when two types share one the survivor must not depend on map iteration
+	for _, typeName := range utils.OrderedKeys(syslTypes) {
+		dataType := syslTypes[typeName]
 		typeSchema := spec.Schema{}
 		if t.isComposite(dataType) {
 			t.parseComposite(dataType, &typeSchema)
@@ -67,7 +71,8 @@ func (t *TypeExporter) populateTypes(syslTypes map[string]*proto.Type, swaggerTy
 		} else if valueMap.Format == "relation" {
 			memberTypes = dataType.GetRelation().GetAttrDefs()
 		}
-		for attK, attV := range memberTypes {
+		for _, attK := range utils.OrderedKeys(memberTypes) {
+			attV := memberTypes[attK]
 			elementSchema := spec.Schema{}
 			if t.isComposite(attV) {
 				t.parseComposite(attV, &elementSchema)
